@@ -81,7 +81,8 @@ CLAIMS['C11'] = dict(
          'computation on the same symbolic arrays (1 direction x 2 pulses, either end grounded): the limit point of the convergence '
          'clause; likewise, splitting the medium at an arbitrary coordinate into two pieces with its constants, or appending a further medium '
          'whose boundary lies beyond the computed reflection distance, leaves E(theta), E(phi) unchanged (whole branch, 1 direction x 1 pulse, '
-         'linear and circular boundary). Continuity in the impedance and the rate of convergence are only exercised by the bounded native sweep.',
+         'linear and circular boundary). The per-medium tables compute_far_field builds (height, coordinate, impedance, boundary kind; 1..3 symbolic media) '
+         'hold each medium\'s own value at its own index, and Medium.impedance satisfies Z^2 (eps_r - j sigma/(omega eps_0)) = 1. Continuity in the impedance and the rate of convergence are only exercised by the bounded native sweep.',
     note='clause-wise claim; call graph by method name and arity (over-approximation); complex sqrt / log uninterpreted; floats as reals',
     design_ref='DESIGN.md §5 C11')
 CLAIMS['C10'] = dict(
@@ -92,7 +93,8 @@ CLAIMS['C10'] = dict(
          '(free space / ideal ground): the middle of compute_far_field (direction vectors, the loop over image_iter(), projections on '
          'theta^ and phi^) is executed on arrays of 1x2x2, 2x1x1 and 1x1x3 (zenith x azimuth x pulses) with symbolic values and a pulse grounded at '
          'either end, and equals the sum of half-segment moments and mirror images written from the property -- SHAPE-BOUNDED '
-         '(values unbounded), so other array shapes rest on the native sweep. Not decided deductively: the 2 % agreement with the exact '
+         '(values unbounded), so other array shapes rest on the native sweep. Frame clause shared with C14: compute_far_field writes only its '
+         'declared results (no state carried from one request to the next). Not decided deductively: the 2 % agreement with the exact '
          'integral, 360-degree periodicity, zenith independence.',
     note='clause-wise claim; tail slice at array shape 1x1, radiation sum at 1x2x2 (numpy semantics executed by numpy on object arrays); '
          'log/sqrt/cos/sin uninterpreted with axioms; floats as reals',
@@ -171,15 +173,20 @@ CLAIMS['C18'] = dict(
     design_ref='DESIGN.md §5 C18')
 CLAIMS['C04'] = dict(
     category='other',
-    text='Clause claimed: the vector-potential assembly of each pulse half. The real Mininec.nf_helper is executed symbolically (values '
-         'unbounded) for a container of two pulses, each pulse index and both image signs -- BOUNDED in the array shape, so not counted as a '
-         'proof: each component is psi(lower half) * sign_1 * direction of segment 1 (* ground sign on z) + psi(upper half) * sign_2 * direction '
-         'of segment 2, times the image vector, with psi called on exactly the mirrored half-segment ends. Everything else of the property '
-         'Also decided (2 pulses, symbolic grounding flags): the image pass of compute_near_field takes exactly the pulses with no grounded '
-         'end (a grounded pulse carries its image half itself by nf_helper\'s contract), and every accumulation of the pass goes through that mask. '
-         'Everything else of the property '
-         '(scalar potential, curl, far-field convergence) is exercised by the bounded native sweep only; one recorded finding (C04-unequal-junction).',
-    note='clause-only, shape-bounded (2 pulses, scalar index); psi by contract',
+    text='Clauses claimed, all on the real code with every value symbolic but BOUNDED in the array shape (2 pulses, one observation point), so not counted as a '
+         'proof. (1) Vector potential: Mininec.nf_helper returns psi(lower half) * sign_1 * direction of segment 1 (* ground sign on z) + psi(upper half) * sign_2 * '
+         'direction of segment 2, times the image vector, psi called on exactly the mirrored half-segment ends and -- each half with the data of its own '
+         'segment -- with scale -1/2 for the lower and +1/2 for the upper half; the leading statements of Mininec.psi are proved to pick radius, length and kernel '
+         'constant of the first / second segment by the sign of scale and to weight with |scale| * that length; Pulse.dvecs / endseg return the piece of the '
+         'segment on that side. (2) Scalar potential: psi_near_field_56 integrates over the whole segment on the named side, mirrored for the image, seen '
+         'from the point displaced by half the step. (3) Assembly in compute_near_field, from `s0 = ...` to the end of the loop body: E = f_e * (-j m / s0) * sum '
+         'over pulses of current * sum over direct/image pass (image pass: exactly the pulses with no grounded end) of the two central differences of the '
+         'charge potentials, each over its own segment length, plus the current term; H = f_e / (4 pi s0) * central-difference curl of the summed vector '
+         'potential with the same step on both sides of the point; f_e = sqrt(requested / computed power); s0 = wavelength / 1000. Frame clause shared with C14: '
+         'compute_near_field writes only its declared results. What stays bounded-only: psi (numerical quadrature) and with it the 1 % agreement with an '
+         'independent Gauss quadrature of currents, charges and images close to the antenna and on the ground plane, and the convergence to the reported '
+         'far field at 150..300 wavelengths (native sweep). The former finding C04-unequal-junction was traced with contract (1) to nf_helper and repaired (e4078ff).',
+    note='shape-bounded (2 pulses, 1 point), values unbounded; psi, nf_helper and psi_near_field_56 enter the assembly unit by their contracts',
     design_ref='DESIGN.md §5 C04')
 for _p in CLAIMS:
     NOT_APPLICABLE.pop(_p, None)
@@ -190,8 +197,9 @@ _T0 = ('contract-based deductive verification with a VC generator written for th
        'named obligations, loops as cut points with fold specifications or quantified invariants, callee contracts as summaries); '
        'obligations discharged by z3 5.1 (fallback: z3 nlsat tactic, cvc5 1.0.3; thorough tier re-checks every unsat with cvc5); ')
 TECHNIQUE = {
-    'C04': _T0 + 'here on small dense arrays (2 pulses) with symbolic entries for nf_helper and the image-pass mask; the bounded native '
-                 'near-field/far-field comparison is a stand-in, never counted as proved',
+    'C04': _T0 + 'here on small dense arrays (2 pulses, 1 point) with symbolic entries: nf_helper, the segment selection of psi, Pulse.dvecs, '
+                 'psi_near_field_56 and the whole E/H assembly of compute_near_field (cut at the per-pulse array) against spec functions of the '
+                 'potentials; the bounded native near-field/far-field/independent-quadrature comparison is a stand-in, never counted as proved',
     'C07': _T0 + 'fold specification of compute_rhs, linearity and dBi-invariance lemmas over the contracts, frame condition '
                  '(matrix fill never reads the sources) over the AST call graph',
     'C08': _T0 + 'nested fold specification of compute_impedance_matrix_loads, circuit identities for RLC/trap/Laplace loads with symbolic '
@@ -200,7 +208,8 @@ TECHNIQUE = {
     'C10': _T0 + 'the far-field slices (radiation sum on 1x2x2 arrays with numpy semantics executed by numpy on object arrays; dBi/V-per-m tail '
                  'pointwise) against spec functions written from the property',
     'C11': _T0 + 'reads clause and taint frame over the AST call graph (no ground constant can reach the currents) and three shape-bounded '
-                 'slices of the real-ground branch (reflection point, medium lookup with lemmas, Fresnel coefficients with the perfect-conductor limit)',
+                 'slices of the real-ground branch (reflection point, medium lookup with lemmas, Fresnel coefficients with the perfect-conductor limit), '
+                 'the media tables and Medium.impedance, and the whole branch end to end for the limit, split and further-medium clauses',
     'C12': _T0 + 'search-loop rule for the end matching, quantified invariant for the pulse-creation loops, count lemma',
     'C13': _T0 + 'loop invariants for the segment chains, polynomial identities under cos^2+sin^2=1 by z3-checked linear-combination '
                  'certificates (rotation matrix, helix); the taper search loops are bounded only',
